@@ -160,7 +160,7 @@ Proof.
   destruct (G t) as (G1 & G2 & G3).
   apply inv_set_timers; [exact I| | |].
   - split; [|split].
-    + intros j t' H E. destruct (N j t' H) as [[_ A]|[_ ->]]; [eauto|congruence].
+    + intros j t' H. destruct (N j t' H) as [[_ A]|[_ ->]]; [apply (T1 _ _ A)|rewrite G1, G3; split; congruence].
     + intros j t' H. destruct (N j t' H) as [[_ A]|[_ ->]]; [eauto|]. rewrite G2. eauto.
     + intros a b ta tb Ha' Hb Sa Sb E.
       destruct (N a ta Ha') as [[Na A]|[-> ->]]; destruct (N b tb Hb) as [[Nb B]|[-> ->]]; auto.
@@ -180,7 +180,7 @@ Proof.
   destruct (heap_min st) as [[i e]|] eqn:H; [|exact I].
   destruct (e <? now st); [|exact I].
   destruct (heap_min_spec st i e H) as (t & N & E). rewrite N.
-  assert (A : t_state t = Active) by (destruct I as (_ & (T1 & _) & _); apply (T1 i t N); congruence).
+  assert (A : t_state t = Active) by (destruct I as (_ & (T1 & _) & _); apply (proj1 (T1 i t N)); congruence).
   apply IH.
   match goal with |- inv (item_add _ _ ?s) => set (s1 := s) end.
   assert (I1 : inv s1) by (apply (inv_timer_tojoblist i _ st t I N A); intros; cbn; auto).
@@ -318,7 +318,7 @@ Proof.
     assert (I1 : inv s1) by (apply inv_timer_touch; [exact I|intros; cbn; auto]).
     assert (N1 : nth_error (timers s1) i = Some (g0 t)) by (cbn; apply nth_upd_nth_same; exact N).
     assert (EX : t_exp t = None).
-    { destruct (t_exp t) eqn:E; [|reflexivity]. destruct I as (_ & (T1 & _) & _). assert (t_state t = Active) by (apply (T1 i t N); congruence). congruence. }
+    { destruct (t_exp t) eqn:E; [|reflexivity]. destruct I as (_ & (T1 & _) & _). assert (t_state t = Active) by (apply (proj1 (T1 i t N)); congruence). congruence. }
     assert (U : t_uid t < next_uid st) by (destruct I as (_ & (_ & T2 & _) & _); eauto).
     assert (NL : ~ live s1 1 (t_uid t)).
     { intros [[X _]|[[_ (j & t' & A & B & C)]|[[X _]|[X _]]]]; try discriminate X.
